@@ -43,7 +43,13 @@ ASSUMPTIONS = ["MiniPy is deliberately UNDEFINED (MiniPyTypeError) on dynamicall
                "integers: naturals only; a subtraction with a negative result is an error of the fragment (guarded in the runner)",
                "string literals are printable ASCII; replace / split / lstrip / repetition take one-character literals (enforced by "
                "the translator); local `def` inlining by the translator is not part of the term language and not exercised here",
-               "the environment binds each name to its own object (no two parameters share a list)"]
+               "the environment binds each name to its own object (no two parameters share a list)",
+               "dict keys (stored or looked up) are hashable values; the interpreter does not check it (CPython raises TypeError for a "
+               "list / dict key); `k in obj` is generated for argparse.Namespace objects only (other objects: TypeError in CPython, "
+               "attribute membership in the interpreter); argparse.SUPPRESS is a sentinel distinct from every string (it IS the string "
+               "'==SUPPRESS==' in CPython); == on objects is structural (class and attributes); list item assignment xs[i] = v, "
+               "views (d.keys(), zip, vars) outside iteration positions and evaluation-order differences inside one nested item "
+               "assignment are outside the fragment (the translator refuses the views)"]
 
 ATTR_VARS = ["self.pre", "self.acc"]          # attribute variables; self.acc is also an assignment / append target
 STRS = ["", "a", "-", "--", "_", ".", "a_b", "--x.y", "a.b.c", "-f", "x-y", "__", "ab", "A b", "{}", "it's", 'q"q', "\\", "aa",
@@ -546,6 +552,8 @@ def _size(v, budget):
         if len(v) > 80:
             raise _TooBig()
         return 1
+    if isinstance(v, dict):
+        v = list(v.keys()) + list(v.values())
     if isinstance(v, (list, tuple)):
         if len(v) > 60:
             raise _TooBig()
@@ -575,8 +583,7 @@ def small_enough(case):
     from translate.pyast import Unrecognised
     try:
         src, params = to_source(case)
-        fn = ast.parse(src).body[0]
-        minipy.method_block(fn, minipy.Ctx(attr_vars=ATTR_VARS, attr_targets=["self.acc"], prims={"utils.get_nesting_level": "ENestLevel"}))
+        _translate(src)
     except Unrecognised as e:
         return "aliasing" in str(e)
     except Exception:  # noqa: BLE001
@@ -591,16 +598,18 @@ def small_enough(case):
             if steps[0] > 3000:
                 raise _TooBig()
             for v in frame.f_locals.values():
-                if isinstance(v, types.SimpleNamespace):
+                if isinstance(v, (types.SimpleNamespace, _argparse.Namespace, _RecBase)):
                     for w in vars(v).values():
-                        _size(w, 400)
+                        if not callable(w) and not isinstance(w, (_argparse.Namespace, _RecBase)):
+                            _size(w, 400)
                 else:
                     _size(v, 400)
             if event == "return":
                 _size(arg, 400)
         return tracer
 
-    glob = {"utils": types.SimpleNamespace(get_nesting_level=_nesting, InconsistentArgumentError=type("InconsistentArgumentError", (Exception,), {}))}
+    glob = _globals(types.SimpleNamespace(get_nesting_level=_nesting, split_dest=lambda d: (d.rpartition(".")[0], d.rpartition(".")[2]),
+                                          InconsistentArgumentError=type("InconsistentArgumentError", (Exception,), {})), lambda a, b: a - b)
     import warnings
     with warnings.catch_warnings():
         warnings.simplefilter("ignore")
@@ -627,12 +636,174 @@ def small_enough(case):
     return True
 
 
+# ---- fourth group: dicts, objects, sentinels, tables, continue, unpacking, procedures ("plumbing" programs) -------------------
+KEYS = ["a", "b", "a.x", "b.x", "k", "", "zz"]
+CONSTS = ["argparse.SUPPRESS", "dataclasses.MISSING"]
+
+
+def _pv(rng):
+    return rng.choice([0, 1, 2, "s", "a.x", True, None, {"list": [1, 2]}, {"list": []}, {"const": "argparse.SUPPRESS"}])
+
+
+def gen_plumbing(rng, ill):
+    """Programs over a dict d (str -> values), a dict of dicts dd, an object rec (with a nested object, a list, a dict and two
+    function tables), a list of keys and a sentinel; keys are drawn from present and absent ones, so KeyError / AttributeError /
+    the default of pop / get are all reached."""
+    dkeys = rng.sample(KEYS, rng.choice([1, 2, 3]))
+    d = {"dict": [[k, _pv(rng)] for k in dkeys]}
+    dd = {"dict": [[k, {"dict": [[k2, _pv(rng)] for k2 in rng.sample(KEYS, rng.choice([0, 1, 2]))]}] for k in rng.sample(KEYS, rng.choice([1, 2]))]}
+    tbl = {"dict": [[0, "zero"], [1, {"tuple": [{"const": "raise"}, "ValueError"]}], ["s", {"list": ["s", "s"]}], [None, 0]]}
+    rec = {"rec": "Wrapper", "fields": [["name", rng.choice(STRS)], ["items", {"list": [rng.choice([0, 1, 2]) for _ in range(rng.choice([0, 1, 2, 3]))]}],
+                                          ["flag", rng.random() < 0.5], ["inner", {"rec": "Field", "fields": [["init", rng.random() < 0.6]]}],
+                                          ["opts", {"dict": [[k, _pv(rng)] for k in rng.sample(KEYS, rng.choice([0, 1, 2]))]}],
+                                          ["table", tbl], ["default", _pv(rng)]]}
+    ns = {"rec": "Namespace", "fields": [[k.replace(".", "_") or "e", _pv(rng)] for k in rng.sample(KEYS, rng.choice([1, 2, 3]))]}
+    env = [["d", d], ["dd", dd], ["rec", rec], ["ns", ns], ["ks", {"list": rng.sample(KEYS, rng.choice([1, 2, 3, 4]))}],
+           ["c", {"const": rng.choice(CONSTS)}], ["n", rng.choice([0, 1, 2])]]
+    nskeys = [k for k, _ in ns["fields"]]
+    fresh = [0]
+
+    def key(pool=None):
+        pool = pool or KEYS
+        r = rng.random()
+        if r < 0.55:
+            return ["EStr", rng.choice(pool)]
+        if r < 0.8:
+            return ["EVar", "k"] if "k" in bound else ["EStr", rng.choice(pool)]
+        if r < 0.9:
+            return ["EAttr", ["EVar", "rec"], "name"]
+        return ["EIndex", ["EVar", "ks"], 0]
+
+    def val():
+        r = rng.random()
+        alts = [lambda: ["ENat", rng.choice([0, 1, 2])], lambda: ["EStr", rng.choice(STRS)], lambda: ["ENone"],
+                lambda: ["EConst", rng.choice(CONSTS)], lambda: ["EVar", "c"],
+                lambda: ["EAttr", ["EVar", "rec"], rng.choice(["name", "flag", "default", "missing" if ill else "name"])],
+                lambda: ["EAttr", ["EAttr", ["EVar", "rec"], "inner"], "init"],
+                lambda: ["EGetItem", ["EVar", "d"], key(dkeys if not ill else None)],
+                lambda: ["EGetItem", ["EGetItem", ["EVar", "dd"], key()], key()] if ill else ["EDictGet", ["EVar", "dd"], key(), ["EDict", []]],
+                lambda: ["EDictGet", ["EVar", "d"], key(), val0()],
+                lambda: ["EGetAttr", ["EVar", "ns"], ["EStr", rng.choice(nskeys + (["nope"] if ill else []))]],
+                lambda: ["ECallTable", ["EAttr", ["EVar", "rec"], "table"], rng.choice([["ENat", 0], ["EStr", "s"], ["ENone"], ["ENat", 1] if ill else ["ENat", 0], ["EVar", "n"]])],
+                lambda: ["ETuple", [val0() for _ in range(rng.choice([0, 1, 2, 3]))]],
+                lambda: ["EDict", [[["EStr", k], val0()] for k in rng.sample(KEYS, rng.choice([0, 1, 2]))]],
+                lambda: ["ESplitDest", rng.choice([["EStr", rng.choice(["a.b.c", "abc", "", ".", "a."])], ["EAttr", ["EVar", "rec"], "name"]])],
+                lambda: ["ELen", ["EKeys", ["EVar", "d"]]], lambda: ["ELen", ["EVar", rng.choice(["d", "dd"])]],
+                lambda: ["ELen", ["EVars", ["EVar", "ns"]]], lambda: ["ECopy", ["EVar", rng.choice(["d", "ks"])]],
+                lambda: cond()]
+        return rng.choice(alts)()
+
+    def val0():
+        return rng.choice([["ENat", rng.choice([0, 1, 2])], ["EStr", rng.choice(["", "a", "a.x"])], ["ENone"], ["EBool", True], ["EConst", CONSTS[0]]])
+
+    def cond():
+        alts = [lambda: ["EIn", key(), ["EVar", "d"]], lambda: ["ENot", ["EIn", key(), ["EVar", "dd"]]],
+                lambda: ["EIn", ["EStr", rng.choice(nskeys + ["nope"])], ["EVar", "ns"]],
+                lambda: ["EHasAttr", ["EVar", rng.choice(["ns", "rec"])], ["EStr", rng.choice(nskeys + ["name", "nope"])]],
+                lambda: ["EIsConst", rng.choice([["EVar", "c"], ["EGetItem", ["EVar", "d"], key(dkeys)], ["ENone"]]), rng.choice(CONSTS)],
+                lambda: ["ENot", ["EIsConst", ["EVar", "c"], rng.choice(CONSTS)]],
+                lambda: ["EIn", ["EConst", CONSTS[0]], ["EValues", ["EVar", "d"]]],
+                lambda: ["EEq", ["EVar", "d"], ["EDict", [[["EStr", k], val0()] for k in dkeys[:1]]]],
+                lambda: ["EAttr", ["EVar", "rec"], "flag"], lambda: ["ENot", ["EAttr", ["EAttr", ["EVar", "rec"], "inner"], "init"]],
+                lambda: ["EIsInst", ["EVar", rng.choice(["d", "rec", "ns", "ks"])], rng.choice([["dict"], ["Wrapper"], ["list", "dict"], ["Namespace"]])],
+                lambda: ["EAnd", cond(), cond()] if rng.random() < 0.5 else ["EVar", "d"]]
+        return rng.choice(alts)()
+
+    bound = set()
+
+    def stmts(n, depth, in_loop):
+        out = []
+        for _ in range(n):
+            k = rng.choice(["set", "set", "set2", "setattr", "pop", "pop", "popattr", "del", "delattr", "assign", "if", "forc", "for2", "unpack", "call", "append"]
+                           + (["continue"] if in_loop else []))
+            if k == "set":
+                out.append(["SSetPath", rng.choice(["d", "d", "dd"]), [[False, key()]], val()])
+            elif k == "set2":
+                tgt = rng.choice([("dd", [[False, key([x for x, _ in dd["dict"]] if not ill else None)], [False, key()]]),
+                                  ("rec", [[True, ["EStr", "opts"]], [False, key()]]),
+                                  ("rec", [[True, ["EStr", "inner"]], [True, ["EStr", "init"]]])])
+                out.append(["SSetPath", tgt[0], tgt[1], val()])
+            elif k == "setattr":
+                x = rng.choice(["rec", "ns"])     # rec.name stays a string: it is used as a dict key
+                out.append(["SSetPath", x, [[True, ["EStr", rng.choice(["extra", "flag"] + (nskeys if x == "ns" else []))]]], val()])
+            elif k == "pop":
+                fresh[0] += 1
+                t = rng.choice(["v", "w", "_", f"p{fresh[0]}"])
+                out.append(["SPop", t, rng.choice(["d", "dd"]), key(), val0() if rng.random() < (0.75 if not ill else 0.4) else None])
+                bound.add(t)
+            elif k == "popattr":
+                t = rng.choice(["v", "w"])
+                out.append(["SPopAttr", t, "ns", ["EStr", rng.choice(nskeys + ["nope"])] if rng.random() < 0.7 else key(), val0() if rng.random() < (0.8 if not ill else 0.4) else None])
+                bound.add(t)
+            elif k == "del":
+                out.append(["SIf", ["EIn", key(dkeys), ["EVar", "d"]], [["SDelItem", "d", key(dkeys)]], []] if not ill and rng.random() < 0.7 else ["SDelItem", "d", key()])
+            elif k == "delattr":
+                nm = rng.choice(nskeys + ["nope"])
+                out.append(["SIf", ["EHasAttr", ["EVar", "ns"], ["EStr", nm]], [["SDelAttr", "ns", ["EStr", nm]]], []] if not ill else ["SDelAttr", "ns", ["EStr", nm]])
+            elif k == "assign":
+                x = rng.choice(["v", "w", "k"])
+                if x == "k":
+                    out.append(["SAssign", "k", ["EStr", rng.choice(KEYS)]])
+                else:
+                    out.append(["SAssign", x, val()])
+                bound.add(x)
+            elif k == "if" and depth > 0:
+                th = stmts(rng.choice([1, 2]), depth - 1, in_loop)
+                el = stmts(rng.choice([0, 1]), depth - 1, in_loop)
+                out.append(["SIf", cond(), th, el])
+            elif k == "forc" and depth > 0:
+                body = [["SIf", cond(), [["SContinue"]], []]] + stmts(rng.choice([1, 2]), depth - 1, True)
+                it = rng.choice([["EVar", "ks"], ["EKeys", ["EVar", "d"]], ["EAttr", ["EVar", "rec"], "items"]])
+                bound.add("k")
+                out.append(["SForC", "k", it, body])
+            elif k == "for2" and depth > 0:
+                it = rng.choice([["EZip", ["EVar", "ks"], ["EAttr", ["EVar", "rec"], "items"]], ["EItems", ["EVar", "d"]],
+                                 ["EZip", ["EKeys", ["EVar", "d"]], ["EVar", "ks"]]])
+                body = ([["SIf", cond(), [["SContinue"]], []]] if rng.random() < 0.5 else []) + \
+                    [rng.choice([["SSetPath", "dd", [[False, ["EStr", "acc"]]], ["EDict", []]], ["SAssign", "w", ["EVar", "y2"]]]),
+                     ["SSetPath", "rec", [[True, ["EStr", "opts"]], [False, ["EVar", "k"]]], ["EVar", "y2"]]]
+                bound.update(("k", "y2", "w"))
+                out.append(["SFor2", "k", "y2", it, body])
+            elif k == "unpack":
+                src = rng.choice([["ESplitDest", ["EStr", rng.choice(["a.b", "ab", "a.b.c"])]], ["ETuple", [val0(), val0()]],
+                                  ["EList", [val0()] * (2 if not ill else rng.choice([1, 2, 3]))]])
+                bound.update(("v", "w"))
+                out.append(["SUnpack", ["v", "w"], src])
+            elif k == "call":
+                body = [["SIf", ["EVar", "flag"], [["SReturn", ["ENone"]]], []],
+                        ["SSetPath", "target", [[False, ["EVar", "key"]]], ["EVar", "value"]],
+                        ["SAssign", "value", ["ENone"]]]
+                if rng.random() < 0.5:
+                    body.insert(1, ["SSetPath", "ns", [[True, ["EStr", "seen"]]], ["EVar", "key"]])
+                    outs = [["target", rng.choice(["d", "dd"])], ["ns", "ns"]]
+                else:
+                    outs = [["target", rng.choice(["d", "dd"])]]
+                ins = [["flag", cond()], ["key", key()], ["value", val0()], ["target", ["EVar", outs[0][1]]]] + ([["ns", ["EVar", "ns"]]] if len(outs) == 2 else [])
+                out.append(["SCall", body, ins, outs])
+            elif k == "append":
+                out.append(["SAppend", "ks", key()])
+            elif k == "continue":
+                out.append(["SIf", cond(), [["SContinue"]], []])
+        return out
+
+    body = stmts(rng.choice([2, 3, 4, 5, 6]), 2, False)
+    if rng.random() < 0.06:        # aliasing on dicts: must be refused
+        body.insert(rng.randrange(len(body) + 1), rng.choice([["SAssign", "alias", ["EVar", "d"]], ["SSetPath", "dd", [[False, ["EStr", "self"]]], ["EVar", "d"]],
+                                                               ["SAssign", "alias", ["EGetItem", ["EVar", "dd"], ["EStr", "a"]]]]))
+        body.append(["SSetPath", "d", [[False, ["EStr", "late"]]], ["ENat", 1]])
+        if body[0][0] == "SAssign" and body[0][1] == "alias":
+            body.append(["SSetPath", "alias", [[False, ["EStr", "x"]]], ["ENat", 2]])
+    ret = ["ETuple", [["EVar", x] for x in ("d", "dd", "rec", "ns", "ks")] + [["EVar", x] for x in sorted(bound) if x != "_" and rng.random() < 0.5 and not ill]]
+    body.append(["SReturn", ret])
+    return {"env": env, "prog": body, "ill": ill}
+
+
 def gen(tier, seed):
     rng = random.Random(f"MINIPY-{seed}")
     n = 2000 if tier == "quick" else 30000
     cases = list(FIXED)
     while len(cases) < n:
-        c = gen_program(rng, rng.random() < 0.25)
+        c = gen_plumbing(rng, rng.random() < 0.3) if rng.random() < 0.3 else gen_program(rng, rng.random() < 0.25)
         if small_enough(c):
             cases.append(c)
     return cases
@@ -770,6 +941,34 @@ def py_expr(e):
         return _call(ast.Name(id="list", ctx=ast.Load()), py_expr(e[1]))
     if k == "ENestLevel":
         return _call(ast.Attribute(value=ast.Name(id="utils", ctx=ast.Load()), attr="get_nesting_level", ctx=ast.Load()), py_expr(e[1]))
+    if k == "EConst":
+        return _name(e[1])
+    if k == "EIsConst":
+        return ast.Compare(left=py_expr(e[1]), ops=[ast.Is()], comparators=[_name(e[2])])
+    if k == "ETuple":
+        return ast.Tuple(elts=[py_expr(x) for x in e[1]], ctx=ast.Load())
+    if k == "EDict":
+        return ast.Dict(keys=[py_expr(kv[0]) for kv in e[1]], values=[py_expr(kv[1]) for kv in e[1]])
+    if k == "EAttr":
+        return ast.Attribute(value=py_expr(e[1]), attr=e[2], ctx=ast.Load())
+    if k in ("EGetAttr", "EHasAttr"):
+        return _call(ast.Name(id="getattr" if k == "EGetAttr" else "hasattr", ctx=ast.Load()), py_expr(e[1]), py_expr(e[2]))
+    if k == "EVars":
+        return _call(ast.Name(id="vars", ctx=ast.Load()), py_expr(e[1]))
+    if k == "EGetItem":
+        return ast.Subscript(value=py_expr(e[1]), slice=py_expr(e[2]), ctx=ast.Load())
+    if k == "EDictGet":
+        return _meth(py_expr(e[1]), "get", py_expr(e[2]), py_expr(e[3]))
+    if k == "ECopy":
+        return _meth(py_expr(e[1]), "copy")
+    if k in ("EKeys", "EValues", "EItems"):
+        return _meth(py_expr(e[1]), k[1:].lower())
+    if k == "EZip":
+        return _call(ast.Name(id="zip", ctx=ast.Load()), py_expr(e[1]), py_expr(e[2]))
+    if k == "ECallTable":
+        return _call(py_expr(e[1]), py_expr(e[2]))
+    if k == "ESplitDest":
+        return _call(ast.Attribute(value=ast.Name(id="utils", ctx=ast.Load()), attr="split_dest", ctx=ast.Load()), py_expr(e[1]))
     raise ValueError(f"unknown expression constructor {k}")
 
 
@@ -805,7 +1004,48 @@ def py_stmt(s):
         if s[1] == "InconsistentArgumentError":
             f = ast.Attribute(value=ast.Name(id="utils", ctx=ast.Load()), attr=s[1], ctx=ast.Load())
         return ast.Raise(exc=_call(f, _c("raised by the generated program")), cause=None)
+    if k == "SContinue":
+        return ast.Continue()
+    if k == "SForC":
+        return ast.For(target=_store(s[1]), iter=py_expr(s[2]), body=py_block(s[3]), orelse=[], lineno=0)
+    if k == "SFor2":
+        tgt = ast.Tuple(elts=[_store(s[1]), _store(s[2])], ctx=ast.Store())
+        return ast.For(target=tgt, iter=py_expr(s[3]), body=py_block(s[4]), orelse=[], lineno=0)
+    if k == "SUnpack":
+        return ast.Assign(targets=[ast.Tuple(elts=[_store(x) for x in s[1]], ctx=ast.Store())], value=py_expr(s[2]), lineno=0)
+    if k == "SSetPath":
+        t = ast.Name(id=s[1], ctx=ast.Load())
+        for is_attr, key in s[2]:
+            t = ast.Attribute(value=t, attr=key[1], ctx=ast.Load()) if is_attr else ast.Subscript(value=t, slice=py_expr(key), ctx=ast.Load())
+        t.ctx = ast.Store()
+        return ast.Assign(targets=[t], value=py_expr(s[3]), lineno=0)
+    if k == "SDelItem":
+        return ast.Delete(targets=[ast.Subscript(value=ast.Name(id=s[1], ctx=ast.Load()), slice=py_expr(s[2]), ctx=ast.Del())])
+    if k == "SDelAttr":
+        return ast.Expr(value=_call(ast.Name(id="delattr", ctx=ast.Load()), ast.Name(id=s[1], ctx=ast.Load()), py_expr(s[2])))
+    if k in ("SPop", "SPopAttr"):
+        obj = ast.Name(id=s[2] if k == "SPop" else "view_of_" + s[2], ctx=ast.Load())
+        call = _meth(obj, "pop", py_expr(s[3]), *([py_expr(s[4])] if s[4] is not None else []))
+        if s[1] == "_":
+            return ast.Expr(value=call)
+        return ast.Assign(targets=[_store(s[1])], value=call, lineno=0)
+    if k == "SCall":
+        return ast.Expr(value=_call(ast.Name(id=s[4], ctx=ast.Load()), keywords=[ast.keyword(arg=p, value=py_expr(a)) for p, a in s[2]]))
     raise ValueError(f"unknown statement constructor {k}")
+
+
+def _walk_stmts(ss):
+    for st in ss:
+        yield st
+        if st[0] == "SIf":
+            yield from _walk_stmts(st[2])
+            yield from _walk_stmts(st[3])
+        elif st[0] in ("SFor", "SForC"):
+            yield from _walk_stmts(st[3])
+        elif st[0] == "SFor2":
+            yield from _walk_stmts(st[4])
+        elif st[0] == "SCall":
+            yield from _walk_stmts(st[1])
 
 
 def to_source(case):
@@ -814,10 +1054,28 @@ def to_source(case):
         p = x.split(".", 1)[0]
         if p not in params:
             params.append(p)
-    body = py_block(case["prog"])
+    # procedures (SCall): one module-level def each; the call site names it (slot 4 of the statement, printing only)
+    defs = []
+    for st in _walk_stmts(case["prog"]):
+        if st[0] == "SCall":
+            name = f"proc_{len(defs)}"
+            if len(st) == 4:
+                st.append(name)
+            else:
+                st[4] = name
+            defs.append(ast.FunctionDef(name=name, args=ast.arguments(posonlyargs=[], args=[ast.arg(arg=p) for p, _ in st[2]], kwonlyargs=[],
+                                                                      kw_defaults=[], defaults=[]),
+                                        body=py_block(st[1]), decorator_list=[], returns=None, lineno=0, type_params=[]))
+    views = []
+    for st in _walk_stmts(case["prog"]):
+        if st[0] == "SPopAttr" and st[2] not in views:
+            views.append(st[2])
+    prelude = [ast.Assign(targets=[ast.Name(id="view_of_" + x, ctx=ast.Store())], value=_call(ast.Name(id="vars", ctx=ast.Load()), ast.Name(id=x, ctx=ast.Load())), lineno=0)
+               for x in views]
+    body = prelude + py_block(case["prog"])
     fn = ast.FunctionDef(name="f", args=ast.arguments(posonlyargs=[], args=[ast.arg(arg=p) for p in params], kwonlyargs=[], kw_defaults=[], defaults=[]),
                          body=body, decorator_list=[], returns=None, lineno=0, type_params=[])
-    mod = ast.Module(body=[fn], type_ignores=[])
+    mod = ast.Module(body=defs + [fn], type_ignores=[])
     ast.fix_missing_locations(mod)
     return ast.unparse(mod), params
 
@@ -865,6 +1123,22 @@ def coq_expr(e):
         return f"(ERepeat {cstr(e[1])} {coq_expr(e[2])})"
     if k == "EIsInst":
         return f"(EIsInst {coq_expr(e[1])} [{'; '.join(cstr(c) for c in e[2])}])"
+    if k == "EConst":
+        return f"(EConst {cstr(e[1])})"
+    if k == "EIsConst":
+        return f"(EIsConst {coq_expr(e[1])} {cstr(e[2])})"
+    if k == "ETuple":
+        return "(ETuple [" + "; ".join(coq_expr(x) for x in e[1]) + "])"
+    if k == "EDict":
+        return "(EDict [" + "; ".join(f"({coq_expr(kv[0])}, {coq_expr(kv[1])})" for kv in e[1]) + "])"
+    if k == "EAttr":
+        return f"(EAttr {coq_expr(e[1])} {cstr(e[2])})"
+    if k in ("EGetAttr", "EHasAttr", "EGetItem", "EZip", "ECallTable"):
+        return f"({k} {coq_expr(e[1])} {coq_expr(e[2])})"
+    if k in ("EVars", "ECopy", "EKeys", "EValues", "EItems", "ESplitDest"):
+        return f"({k} {coq_expr(e[1])})"
+    if k == "EDictGet":
+        return f"(EDictGet {coq_expr(e[1])} {coq_expr(e[2])} {coq_expr(e[3])})"
     raise ValueError(k)
 
 
@@ -882,6 +1156,26 @@ def coq_stmt(s):
         return f"SUnpack3 {cstr(s[1])} {cstr(s[2])} {cstr(s[3])} {coq_expr(s[4])}"
     if k == "SRaise":
         return f"SRaise {cstr(s[1])}"
+    if k == "SContinue":
+        return "SContinue"
+    if k == "SForC":
+        return f"SForC {cstr(s[1])} {coq_expr(s[2])} [{'; '.join(coq_stmt(x) for x in s[3])}]"
+    if k == "SFor2":
+        return f"SFor2 {cstr(s[1])} {cstr(s[2])} {coq_expr(s[3])} [{'; '.join(coq_stmt(x) for x in s[4])}]"
+    if k == "SUnpack":
+        return f"SUnpack [{'; '.join(cstr(x) for x in s[1])}] {coq_expr(s[2])}"
+    if k == "SSetPath":
+        path = "; ".join(f"({'true' if a else 'false'}, {coq_expr(key)})" for a, key in s[2])
+        return f"SSetPath {cstr(s[1])} [{path}] {coq_expr(s[3])}"
+    if k in ("SDelItem", "SDelAttr"):
+        return f"{k} {cstr(s[1])} {coq_expr(s[2])}"
+    if k in ("SPop", "SPopAttr"):
+        d = f"(Some {coq_expr(s[4])})" if s[4] is not None else "None"
+        return f"{k} {cstr(s[1])} {cstr(s[2])} {coq_expr(s[3])} {d}"
+    if k == "SCall":
+        ins = "; ".join(f"({cstr(p)}, {coq_expr(a)})" for p, a in s[2])
+        outs = "; ".join(f"({cstr(p)}, {cstr(x)})" for p, x in s[3])
+        return f"SCall [{'; '.join(coq_stmt(x) for x in s[1])}] [{ins}] [{outs}]"
     raise ValueError(k)
 
 
@@ -896,6 +1190,12 @@ def coq_val(v):
         return "VNone"
     if "list" in v:
         return f"(VL {clist([coq_val(x) for x in v['list']])})"
+    if "dict" in v:
+        return "(VD " + clist([f"({coq_val(k)}, {coq_val(x)})" for k, x in v["dict"]]) + ")"
+    if "rec" in v:
+        return f"(VR {cstr(v['rec'])} " + clist([f"({cstr(k)}, {coq_val(x)})" for k, x in v["fields"]]) + ")"
+    if "const" in v:
+        return f"(VC {cstr(v['const'])})"
     return f"(VT {clist([coq_val(x) for x in v['tuple']])})"
 
 
@@ -911,15 +1211,66 @@ def to_coq(case, obs):
 # runs inside the implementation interpreter
 
 
-def _pyval(v):
+import argparse as _argparse
+import dataclasses as _dataclasses
+
+_RAISE = type("RaiseMarker", (), {"__repr__": lambda self: "<raise>"})()
+_CONST = {"argparse.SUPPRESS": _argparse.SUPPRESS, "dataclasses.MISSING": _dataclasses.MISSING, "raise": _RAISE}
+_CLASSES = {}
+
+
+class MiniPyUnknownCall(Exception):
+    pass
+
+
+class _RecBase:
+    """a plain object with attributes (a wrapper): not a Namespace, so `k in obj` is a TypeError as for any object"""
+
+
+def _rec_class(name):
+    """Objects are argparse.Namespace instances (`in`, vars, setattr, ==) of a class named like the MiniPy class tag;
+    == also compares the class (MiniPy val_eqb on VR)."""
+    if name not in _CLASSES:
+        def eq(self, other):
+            return type(self) is type(other) and vars(self) == vars(other)
+        _CLASSES[name] = _argparse.Namespace if name == "Namespace" else type(name, (_RecBase,), {"__eq__": eq, "__hash__": None})
+    return _CLASSES[name]
+
+
+def _table_fn(table):
+    pairs = [(_pyval(k), _pyval(v)) for k, v in table["dict"]]
+
+    def call(a):
+        for k, v in pairs:
+            if k == a:
+                if isinstance(v, tuple) and len(v) == 2 and v[0] is _RAISE:
+                    raise {"ValueError": ValueError, "KeyError": KeyError, "TypeError": TypeError}.get(v[1], RuntimeError)()
+                return v
+        raise MiniPyUnknownCall()
+    call.minipy_table = table
+    return call
+
+
+def _pyval(v, as_table=False):
     if isinstance(v, dict):
         if "list" in v:
             return [_pyval(x) for x in v["list"]]
+        if "dict" in v:
+            return _table_fn(v) if as_table else {_pyval(k): _pyval(x) for k, x in v["dict"]}
+        if "rec" in v:
+            o = _rec_class(v["rec"])()
+            for k, x in v["fields"]:
+                setattr(o, k, _pyval(x, as_table=(k == "table")))
+            return o
+        if "const" in v:
+            return _CONST[v["const"]]
         return tuple(_pyval(x) for x in v["tuple"])
     return v
 
 
 def _canon(v):
+    if isinstance(v, str) and v == _argparse.SUPPRESS:
+        return {"const": "argparse.SUPPRESS"}
     if isinstance(v, bool) or v is None or isinstance(v, str):
         if isinstance(v, str) and any(ord(c) < 32 or ord(c) > 126 for c in v):
             raise ValueError("non-ASCII result")
@@ -932,7 +1283,39 @@ def _canon(v):
         return {"list": [_canon(x) for x in v]}
     if isinstance(v, tuple):
         return {"tuple": [_canon(x) for x in v]}
+    if isinstance(v, dict):
+        return {"dict": [[_canon(k), _canon(x)] for k, x in v.items()]}
+    if isinstance(v, (_argparse.Namespace, _RecBase)):
+        return {"rec": type(v).__name__, "fields": [[k, _canon(x)] for k, x in vars(v).items()]}
+    if v is _dataclasses.MISSING:
+        return {"const": "dataclasses.MISSING"}
+    if v is _RAISE:
+        return {"const": "raise"}
+    if callable(v) and hasattr(v, "minipy_table"):
+        return v.minipy_table
     raise ValueError(f"result of type {type(v).__name__}")
+
+
+REC_CLASSES = ["Wrapper", "Field", "Namespace"]
+
+
+def _translate(src):
+    """translate/minipy.py on the printed module: the last def is the program, the others are the procedures it calls."""
+    from translate import minipy
+    mod = ast.parse(src)
+    kw = dict(attr_vars=ATTR_VARS, prims={"utils.get_nesting_level": "ENestLevel", "utils.split_dest": "ESplitDest"}, objects=True,
+              consts={"argparse.SUPPRESS": "argparse.SUPPRESS", "dataclasses.MISSING": "dataclasses.MISSING"}, tables=["rec.table"],
+              record_classes=REC_CLASSES)
+    procs = {f.name: (f, minipy.Ctx(**kw), None) for f in mod.body[:-1]}
+    c = minipy.Ctx(attr_targets=["self.acc"], procs=procs, **kw)
+    return minipy.method_block(mod.body[-1], c)[0]
+
+
+def _globals(utils_ns, sub):
+    g = {"utils": utils_ns, "_minipy_sub": sub, "argparse": _argparse, "dataclasses": _dataclasses}
+    for n in REC_CLASSES:
+        g[n] = _rec_class(n)
+    return g
 
 
 class _GuardSub(ast.NodeTransformer):
@@ -971,7 +1354,7 @@ def run_impl(cases):
         raise Timeout()
 
     signal.signal(signal.SIGALRM, on_alarm)
-    utils_ns = types.SimpleNamespace(get_nesting_level=sp_utils.get_nesting_level,
+    utils_ns = types.SimpleNamespace(get_nesting_level=sp_utils.get_nesting_level, split_dest=sp_utils.split_dest,
                                      InconsistentArgumentError=sp_utils.InconsistentArgumentError)
     out = []
     for case in cases:
@@ -985,9 +1368,7 @@ def run_impl(cases):
         obs["source"] = src
         # ---- the translator on the printed source must give the term back
         try:
-            fn = ast.parse(src).body[0]
-            c = minipy.Ctx(attr_vars=ATTR_VARS, attr_targets=["self.acc"], prims={"utils.get_nesting_level": "ENestLevel"})
-            blk, _ = minipy.method_block(fn, c)
+            blk = _translate(src)
             want = "[" + ";\n   ".join(coq_stmt(s) for s in case["prog"]) + "]"
             if blk != want:
                 obs["roundtrip"] = "translate(parse(print(p))) differs from p"
@@ -1006,7 +1387,7 @@ def run_impl(cases):
         # ---- CPython
         tree = _GuardSub().visit(ast.parse(src))
         ast.fix_missing_locations(tree)
-        glob = {"utils": utils_ns, "_minipy_sub": _sub}
+        glob = _globals(utils_ns, _sub)
         exec(compile(tree, "<minipy>", "exec", dont_inherit=True), glob)
         self_obj = types.SimpleNamespace()
         args = {}
